@@ -4,7 +4,7 @@
 //!   mt=<u8> xid=<u32> secs=<u16> chaddr=<6> ciaddr= yiaddr= siaddr= giaddr=<4> bcast=0|1
 //!   router= mask= reqip= sid=<4> cid=<6> prl=<hex|-> dns=<concatenated 4-octet addresses|->
 //!   maxsz=<u16> lease= renew= rebind=<u32> add=<kind>:<hex>,<kind>:<hex>…
-//! `emit`  -> `ret <bytes> opts=<options area> | <Repr::parse of the result>` / `ret Err | -` / `ret PANIC | -`
+//! `emit`  -> `ret <bytes> opts=<options area> | <Repr::parse of the result> | blen=<Repr::buffer_len()>` / `ret Err | - | blen=` / `ret PANIC | - | blen=`
 //! `wopt buf=<hex> kind=<u8> data=<hex>`: DhcpOptionWriter::emit of one option into `buf`, then end()
 //!         -> `emit=<ok|err|PANIC> end=<ok|err|PANIC> buf=<bytes>`
 //! `parse bytes=<hex>` -> `chk <ok|err> [acc <every accessor> sname= file= opts=<kind:data,…>] parse <Ok fields|Err|PANIC>`
@@ -474,10 +474,11 @@ fn run_op(op: &str) -> String {
                 repr.emit(&mut p)
             })
         });
+        let blen = o.with(|repr| repr.buffer_len());
         match res {
-            None => "ret PANIC | -".to_string(),
-            Some(Err(_)) => "ret Err | -".to_string(),
-            Some(Ok(())) => format!("ret {} opts={} | {}", show_bytes(&buf), show_bytes(&buf[240..]), parse_line(&buf)),
+            None => format!("ret PANIC | - | blen={}", blen),
+            Some(Err(_)) => format!("ret Err | - | blen={}", blen),
+            Some(Ok(())) => format!("ret {} opts={} | {} | blen={}", show_bytes(&buf), show_bytes(&buf[240..]), parse_line(&buf), blen),
         }
     } else if op.starts_with("wopt") {
         let kv = Kv::parse(op);
